@@ -331,9 +331,19 @@ func (w *World) Do(op Op) (panicMsg string, panicked bool) {
 			}
 		case KApplyO:
 			if t == TF1 {
-				h.exported.Origin(&w.og1).Apply(func(a int) int { return bigStack(func() int { return w.og1(a) }) + 30000 })
+				h.exported.Origin(&w.og1).Apply(func(a int) int {
+					if vk.InCallAlready() {
+						return bigStack(func() int { return w.og1(a) })
+					}
+					return bigStack(func() int { return w.og1(a) }) + 30000
+				})
 			} else {
-				h.exported.Origin(&w.og).Apply(func(a int) int { return bigStack(func() int { return w.og(a) }) + 30000 })
+				h.exported.Origin(&w.og).Apply(func(a int) int {
+					if vk.InCallAlready() {
+						return bigStack(func() int { return w.og(a) })
+					}
+					return bigStack(func() int { return w.og(a) }) + 30000
+				})
 			}
 		case KReturn:
 			v := 700 + w.nRet[op.B][t]
